@@ -247,6 +247,25 @@ func runC19(t *testing.T, tp *simrt.Tape, keepTrace bool, gcMode bool) hx.Result
 		}
 		changes = append(changes, c)
 	}
+	// Prepare every shard image the run will write before the simulation starts:
+	// building one (or merging a compound shard) executes instrumented code and
+	// would otherwise add scheduler steps the first time an image is needed in a
+	// worker process, making a run depend on the process's history.
+	{
+		v := 1
+		for p := 0; p < wPaths; p++ {
+			if initial[p] {
+				wShard(p, v)
+				v++
+			}
+		}
+		for _, c := range changes {
+			if c.kind == "write" || c.kind == "write-older" {
+				wShard(c.p, v)
+				v++
+			}
+		}
+	}
 	nClients := tp.GenRange(1, 3)
 	type cplan struct {
 		n     int
